@@ -50,6 +50,7 @@ def parseContours : Nat → List String → Option (DPoly × List String)
   | _ + 1, [] => none
 
 def parsePoly : List String → Option (DPoly × List String)
+  | "nil" :: ts => some ([], ts)
   | k :: ts => match k.toNat? with
     | some kv => parseContours kv ts
     | none => none
@@ -66,6 +67,13 @@ def polyInts (P : DPoly) : Option Polygon :=
   P.mapM fun c => c.mapM fun (x, y) =>
     match x.toInt?, y.toInt? with
     | some a, some b => some (⟨a, b⟩ : Pt)
+    | _, _ => none
+
+/-- lattice calls at other magnitudes: the real coordinate is `(lattice + offset) · 2^k` -/
+def polyIntsT (k ox oy : Int) (P : DPoly) : Option Polygon :=
+  P.mapM fun c => c.mapM fun (x, y) =>
+    match (Dy.mk x.m (x.e - k)).toInt?, (Dy.mk y.m (y.e - k)).toInt? with
+    | some a, some b => some (⟨a - ox, b - oy⟩ : Pt)
     | _, _ => none
 
 def minExp (P : DPoly) (acc : Int) : Int :=
@@ -93,10 +101,8 @@ def showPt (p : Pt) (emin : Int) : String := s!"{p.x}*2^{emin} {p.y}*2^{emin}"
 
 def b01 (b : Bool) : String := if b then "1" else "0"
 
-def judgeLattice (op : Op) (N : Nat) (a b r : DPoly) : String :=
-  match polyInts a, polyInts b with
-  | some A, some B =>
-    match polyInts r with
+def judgeLatticeI (op : Op) (N : Nat) (A B : Polygon) (r : Option Polygon) : String :=
+    match r with
     | none => "invalid result-vertex-off-lattice"
     | some R =>
       if validateLattice N A B R op then s!"valid {N * N}"
@@ -107,7 +113,60 @@ def judgeLattice (op : Op) (N : Nat) (a b r : DPoly) : String :=
           let c := centre2 i j
           s!"invalid cell {i} {j} R={b01 (inside (dblPoly R) c)} A={b01 (inside (dblPoly A) c)} B={b01 (inside (dblPoly B) c)}"
         | none => "invalid nonempty-result-for-empty-region"
+
+def judgeLattice (op : Op) (N : Nat) (k ox oy : Int) (a b r : DPoly) : String :=
+  match polyIntsT k ox oy a, polyIntsT k ox oy b with
+  | some A, some B => judgeLatticeI op N A B (polyIntsT k ox oy r)
   | _, _ => "bad-op"
+
+/-- successive `R <poly>` records of a chain; leftover tokens are a failure token of the harness -/
+def parseResults : Nat → List String → List DPoly × List String
+  | 0, ts => ([], ts)
+  | n + 1, "R" :: ts =>
+    match parsePoly ts with
+    | some (r, rest) => let (rs, rest') := parseResults n rest; (r :: rs, rest')
+    | none => ([], "R" :: ts)
+  | _ + 1, ts => ([], ts)
+
+def parsePolys : Nat → List String → Option (List DPoly × List String)
+  | 0, ts => some ([], ts)
+  | n + 1, "P" :: ts =>
+    match parsePoly ts with
+    | some (p, rest) => match parsePolys n rest with
+      | some (ps, rest') => some (p :: ps, rest')
+      | none => none
+    | none => none
+  | _ + 1, _ => none
+
+/-- pool index, with an optional `c` suffix (the harness passes `Clone()` of the entry: same values) -/
+def poolIdx (s : String) : Option Nat :=
+  (String.ofList (s.toList.filter (· != 'c'))).toNat?
+
+def parseSteps : List String → Option (List (Op × Nat × Nat))
+  | [] => some []
+  | "S" :: o :: i :: j :: ts =>
+    match parseOp o, poolIdx i, poolIdx j, parseSteps ts with
+    | some op, some a, some b, some r => some ((op, a, b) :: r)
+    | _, _, _, _ => none
+  | _ => none
+
+/-- a chain: every step is one clipper call whose operands are initial polygons or results of earlier steps
+    (the exact values the real code returned); each step is validated by `validateLattice` -/
+def judgeChain (N : Nat) (pool : Array Polygon) (steps : List (Op × Nat × Nat)) (rs : List DPoly) (k cells : Nat) :
+    String :=
+  match steps, rs with
+  | [], _ => s!"valid {cells}"
+  | (op, i, j) :: steps', r :: rs' =>
+    match pool[i]?, pool[j]? with
+    | some A, some B =>
+      let v := judgeLatticeI op N A B (polyInts r)
+      if v.startsWith "valid" then
+        match polyInts r with
+        | some R => judgeChain N (pool.push R) steps' rs' (k + 1) (cells + N * N)
+        | none => "bad-op"
+      else s!"invalid step {k}: {v}"
+    | _, _ => "bad-op"
+  | _ :: _, [] => s!"invalid step {k}: no result"
 
 def judgePoints (op : Op) (m : Dy) (pts : List DPt) (a b r : DPoly) : String :=
   let emin := minExp [pts] (minExp r (minExp b (minExp a (min 0 m.e))))
@@ -121,7 +180,31 @@ def judgePoints (op : Op) (m : Dy) (pts : List DPt) (a b r : DPoly) : String :=
     | some p => s!"invalid point {showPt p emin} R={b01 (inside R p)} A={b01 (inside A p)} B={b01 (inside B p)}"
     | none => "invalid"
 
+def judgeChainLine (ws res : List String) : String :=
+  match ws with
+  | "chain" :: _ft :: "L" :: n :: m :: rest =>
+    match n.toNat?, m.toNat? with
+    | some N, some mv =>
+      match parsePolys mv rest with
+      | some (ps, srest) =>
+        match parseSteps srest, ps.mapM polyInts with
+        | some steps, some pool =>
+          let (rs, leftover) := parseResults steps.length res
+          if leftover.isEmpty || rs.length < steps.length then
+            let v := judgeChain N pool.toArray steps rs 0 0
+            if v.startsWith "valid" && !leftover.isEmpty then "invalid impl:" ++ "_".intercalate leftover
+            else if v.endsWith "no result" then v ++ " impl:" ++ "_".intercalate leftover
+            else v
+          else "invalid impl:" ++ "_".intercalate leftover
+        | _, _ => "bad-op"
+      | none => "bad-op"
+    | _, _ => "bad-op"
+  | _ => "bad-op"
+
 def judge (ws res : List String) : String :=
+  match ws with
+  | "chain" :: _ => if res.isEmpty then "bad-op" else judgeChainLine ws res
+  | _ =>
   match res with
   | "R" :: rts =>
     match ws with
@@ -129,9 +212,16 @@ def judge (ws res : List String) : String :=
       match parseOp o, n.toNat?, parseAB rest with
       | some op, some N, some (a, b) =>
         match parsePoly rts with
-        | some (r, []) => judgeLattice op N a b r
+        | some (r, []) => judgeLattice op N 0 0 0 a b r
         | _ => "invalid result-non-finite-or-unparsable"
       | _, _, _ => "bad-op"
+    | o :: _ft :: "LT" :: n :: k :: ox :: oy :: rest =>
+      match parseOp o, n.toNat?, k.toInt?, ox.toInt?, oy.toInt?, parseAB rest with
+      | some op, some N, some kv, some x, some y, some (a, b) =>
+        match parsePoly rts with
+        | some (r, []) => judgeLattice op N kv x y a b r
+        | _ => "invalid result-non-finite-or-unparsable"
+      | _, _, _, _, _, _ => "bad-op"
     | o :: _ft :: "P" :: m :: k :: rest =>
       match parseOp o, parseNum m, k.toNat? with
       | some op, some mv, some kv =>
